@@ -19,8 +19,8 @@ E2_EQUIV = ['stream-ref-inplace', 'aes256gcm-aesni-inplace', 'aegis128l-aesni-in
 
 def obligations(tier):
     obs = []
-    deltas = sorted(set(range(-49, 50)) | set(range(-80, 81, 4)) | set(QD)) if tier == "thorough" else QD
-    mlens = [0, 1, 16, 31, 32, 33, 40, 48] if tier == "thorough" else QM
+    deltas = sorted(set(range(-34, 35)) | set(range(-80, 81, 8)) | set(QD)) if tier == "thorough" else QD
+    mlens = [0, 1, 16, 32, 33, 48] if tier == "thorough" else QM
     for v in (0, 1):
         for form in (0, 1, 2, 3):
             for d in deltas:
@@ -33,7 +33,7 @@ def obligations(tier):
                                   defs={"SBVAR": v, "FORM": form, "DELTA": "(%d)" % d, "MLEN": ml}, unwind=420,
                                   timeout=300, tier="quick" if q else "thorough", family="secretbox-overlap-" + SBNAME[v],
                                   desc="secretbox easy/open_easy/detached/open_detached with output at input+DELTA == disjoint run; inner stream calls alias-safe",
-                                  bounds="all key/nonce/message bytes; DELTA enumerated (quick 17 values, thorough every -49..49 and every 4th up to +-80), mlen enumerated"))
+                                  bounds="all key/nonce/message bytes; DELTA enumerated (quick 17 values, thorough every -34..34 and every 8th up to +-80), mlen enumerated"))
     # crypto_sign / crypto_sign_open memmove paths over the abstract group / SHA-512 of C06
     SU = ["crypto_sign/ed25519/ref10/keypair.c", "crypto_sign/ed25519/ref10/sign.c", "crypto_sign/ed25519/ref10/open.c",
           "crypto_sign/ed25519/sign_ed25519.c", "crypto_sign/crypto_sign.c", "sodium/utils.c", "crypto_verify/verify.c"]
